@@ -12,6 +12,8 @@ parts
   between-datetime all ordered pairs of a small date-time alphabet x all 1023 unit subsets.
   between-time    all ordered pairs of the time alphabet x all 63 time-unit subsets.
   between-yearmonth all ordered pairs of the year-month alphabet x {YEARS, MONTHS, YEARS|MONTHS}.
+  (apply-period also drives the adjuster routes: DateAdjusters.add_period(p) called directly and through with_date_adjuster of LocalDate, LocalDateTime,
+                  OffsetDate and OffsetDateTime == date + period; add_period refuses periods with a time component; day_of_month / month / start / end of month.)
   apply-period    x + p, x.plus(p), T.add(x, p), x - p, x.minus(p), T.subtract(x, p) for LocalDate / LocalDateTime / LocalTime over a period alphabet with
                   every combination of non-zero date fields (mixed signs) and time parts crossing midnight == the documented field-by-field model
                   (years, months, weeks, days; the day carried from the time part rides on the days step), at month ends, leap days and firsts of month.
@@ -26,7 +28,7 @@ from __future__ import annotations
 
 import itertools
 
-from pyoda_time import (CalendarSystem, LocalDate, LocalDateTime, LocalTime, Period, PeriodBuilder, PeriodUnits, YearMonth)
+from pyoda_time import (CalendarSystem, DateAdjusters, LocalDate, Offset, LocalDateTime, LocalTime, Period, PeriodBuilder, PeriodUnits, YearMonth)
 
 from vf.core.evidence import Acc, exc_origin, exc_site
 from vf.core.par import pmap
@@ -1065,6 +1067,10 @@ def w_algebra(job):
 
 
 # ================================================================================================ part: apply-period (+ and - routes)
+_NOON = LocalTime(12, 34, 56)
+_OFF = Offset.from_hours(5)
+
+
 class _Ambiguous(Exception):
     pass
 
@@ -1183,13 +1189,88 @@ def w_apply(job):
                 elif got != first:
                     acc.violation("%s/alias-differs/%s" % (P, rname), "%s %s: route %s gives %r, operator gives %r" % (t, pstr(p), rname, got, first), case)
 
+    def adjuster_case(x, t, c, p, adj, k, wrapped):
+        """the adjuster routes of `date + period`: adj(x), x.with_date_adjuster(adj) and the same through LocalDateTime / OffsetDate /
+        OffsetDateTime (time of day and offset untouched) must land where x + p lands according to the field-by-field model."""
+        full = dict.fromkeys(pr.FIELDS, 0) | c
+        try:
+            exp = _model_apply(cal, cm, t, full, 1, None)[0]
+        except pr.OutOfRange:
+            exp = None
+        except _Ambiguous:
+            return
+        nf = sum(1 for f in pr.DATE_FIELDS if c.get(f))
+        fields = "+".join(f for f in pr.DATE_FIELDS if c.get(f))
+        routes = [("adjuster(date)", lambda: adj(x), lambda r: r), ("LocalDate.with_date_adjuster", lambda: x.with_date_adjuster(adj), lambda r: r)]
+        if wrapped:
+            ldt = x.at(_NOON)
+            routes += [("LocalDateTime.with_date_adjuster", lambda: ldt.with_date_adjuster(adj), lambda r: r.date if r.time_of_day == _NOON else None),
+                       ("OffsetDate.with_date_adjuster", lambda: x.with_offset(_OFF).with_date_adjuster(adj), lambda r: r.date if r.offset == _OFF else None),
+                       ("OffsetDateTime.with_date_adjuster", lambda: ldt.with_offset(_OFF).with_date_adjuster(adj), lambda r: r.date if (r.offset == _OFF and r.time_of_day == _NOON) else None)]
+        for rname, fn, pick in routes:
+            acc.count(transitions=1, evaluations=1)
+            classes.add(("adjuster", rname, "%d-date-fields" % nf))
+            case = {"kind": "apply", "calendar": cid, "type": "adjuster", "route": rname, "start": list(t), "period": c}
+            try:
+                r = pick(fn())
+                got = None if r is None else dl.daynum(r)
+                if r is not None and not canonical(r, cal):
+                    got = "invalid %s" % (_safe_ymd(r),)
+            except Exception as e:  # noqa: BLE001
+                if exc_origin(e) == "harness":
+                    raise
+                got = "raises %s" % type(e).__name__
+            K = "C09/%s/apply-period/%s/%%s/fields-%s" % (cid, rname, fields)
+            if exp is None:
+                if not (isinstance(got, str) and got.startswith("raises")):
+                    acc.violation(K % "no-raise-outside-range", "%s with add_period(%s) on %s leaves the calendar range but gave %r" % (rname, pstr(p), t, got), case)
+            elif got != exp:
+                acc.violation(K % ("time-or-offset-changed" if got is None else "differs-from-date-plus-period"),
+                              "%s with DateAdjusters.add_period(%s) on %s gives %s, date + period (years, months, weeks, days) gives %s" % (
+                                  rname, pstr(p), t, dl.ymd(dl.from_daynum(got, cal)) if isinstance(got, int) else got, dl.ymd(dl.from_daynum(exp, cal))), case,
+                              py=("from pyoda_time import CalendarSystem, DateAdjusters, LocalDate, PeriodBuilder\n\n\ndef test_replay():\n    cal = CalendarSystem.for_id(%r)\n    x = LocalDate(%d, %d, %d, cal)\n"
+                                  "    p = PeriodBuilder(**%r).build()\n    assert x.with_date_adjuster(DateAdjusters.add_period(p)) == x + p\n" % ((cid,) + tuple(t) + (c,))))
+            else:
+                acc.outcome("apply:adjuster:%s" % rname)
+
     dates = _apply_dates(cal, tier)
     periods = [(c, PeriodBuilder(**c).build()) for c in _DATE_PERIODS]
-    for t in dates:
+    adjusters = [DateAdjusters.add_period(p) for _, p in periods]
+    for i, t in enumerate(dates):
         x = LocalDate(t[0], t[1], t[2], cal)
         acc.count(states=1)
         for k, (c, p) in enumerate(periods):
             run_case("LocalDate", x, t, None, c, p, k)
+            adjuster_case(x, t, c, p, adjusters[k], k, (k + i) % 3 == 0)
+        # the field-setting adjusters: valid target or an exception
+        dim, nm = cal.get_days_in_month(t[0], t[1]), cal.get_months_in_year(t[0])
+        for name, adj, want in ([("day_of_month(%d)" % d, DateAdjusters.day_of_month(d), (t[0], t[1], d) if d <= dim else None) for d in (1, 19, 29, 30, 31)]
+                                + [("month(%d)" % m, DateAdjusters.month(m), (t[0], m, t[2]) if m <= nm and t[2] <= cal.get_days_in_month(t[0], m) else None) for m in (1, 2, nm, nm + 1)]
+                                + [("start_of_month", DateAdjusters.start_of_month, (t[0], t[1], 1)), ("end_of_month", DateAdjusters.end_of_month, (t[0], t[1], dim))]):
+            acc.count(transitions=1, evaluations=1)
+            try:
+                got = dl.ymd(x.with_date_adjuster(adj))
+            except Exception as e:  # noqa: BLE001
+                if exc_origin(e) == "harness":
+                    raise
+                got = None
+            if got != want:
+                acc.violation("C09/%s/apply-period/DateAdjusters.%s/%s" % (cid, name.split("(")[0], "accepts-invalid-target" if want is None else "wrong-result"),
+                              "%s.with_date_adjuster(DateAdjusters.%s) gives %r, expected %r" % (t, name, got, want), {"kind": "apply", "calendar": cid, "type": "adjuster", "route": name, "start": list(t)})
+    # add_period must refuse a period with a time component when the adjuster is created (documented eager validation)
+    for c in _DT_PERIODS:
+        has_time = any(c.get(f) for f in pr.TIME_FIELDS)
+        acc.count(transitions=1, evaluations=1)
+        try:
+            DateAdjusters.add_period(PeriodBuilder(**c).build())
+            made = True
+        except Exception as e:  # noqa: BLE001
+            if exc_origin(e) == "harness":
+                raise
+            made = False
+        if made == has_time:
+            acc.violation("C09/%s/apply-period/DateAdjusters.add_period/%s" % (cid, "accepts-time-component" if has_time else "rejects-date-only-period"),
+                          "DateAdjusters.add_period(%s) %s" % (c, "was created although the period has a time component" if has_time else "raised for a date-only period"), {"kind": "apply", "calendar": cid, "type": "adjuster", "period": c})
     dtp = [(c, PeriodBuilder(**c).build()) for c in _DT_PERIODS]
     picks = [t for t in dates if t[2] in (1, cal.get_days_in_month(t[0], t[1]))]
     picks = picks[:6] + picks[-4:] if tier == "quick" else picks
